@@ -2,7 +2,9 @@ package configmodel
 
 import (
 	"context"
+	"errors"
 	"fmt"
+	"io/fs"
 	"os"
 	"path/filepath"
 	"sort"
@@ -11,12 +13,15 @@ import (
 	"github.com/bufbuild/buf/private/buf/bufmigrate"
 	"github.com/bufbuild/buf/private/buf/buftarget"
 	"github.com/bufbuild/buf/private/buf/bufworkspace"
+	"github.com/bufbuild/buf/private/bufpkg/bufconfig"
 	"github.com/bufbuild/buf/private/bufpkg/bufmodule"
+	"github.com/bufbuild/buf/private/bufpkg/bufmodule/bufmoduletesting"
 	"github.com/bufbuild/buf/private/bufpkg/bufparse"
 	"github.com/bufbuild/buf/private/bufpkg/bufplugin"
 	"github.com/bufbuild/buf/private/pkg/storage/storageos"
 	"github.com/bufbuild/verifharness/internal/bufx"
 	"github.com/bufbuild/verifharness/internal/reg"
+	"github.com/google/uuid"
 )
 
 type migCase struct {
@@ -28,6 +33,9 @@ type migCase struct {
 	IgnoreFile  bool   `json:"ignoreFile"`
 	BreakingUse string `json:"breakingUse"`
 	Second      string `json:"second"`
+	Deps        string   `json:"deps"`
+	Pins        []string `json:"pins"`
+	Declared    []string `json:"declared"`
 }
 type migInput struct {
 	Cases   []migCase `json:"cases"`
@@ -77,6 +85,90 @@ func v1BufYAML(version, lintUse string, emptyReq, emptyResp, ignoreFile bool, br
 	return sb.String()
 }
 
+const directName, transitiveName = "buf.test/acme/direct", "buf.test/acme/transitive"
+
+// depsProvider serves the two remote modules of the dependency dimension (direct imports transitive).
+func depsProvider() (bufmoduletesting.OmniProvider, error) {
+	return bufmoduletesting.NewOmniProvider(
+		bufmoduletesting.ModuleData{Name: transitiveName, CommitID: uuid.MustParse("55555555-5555-4555-8555-555555555555"), PathToData: map[string][]byte{
+			"transitive/v1/transitive.proto": []byte("syntax = \"proto3\";\npackage transitive.v1;\nmessage Transitive {}\n")}},
+		bufmoduletesting.ModuleData{Name: directName, CommitID: uuid.MustParse("66666666-6666-4666-8666-666666666666"), PathToData: map[string][]byte{
+			"direct/v1/direct.proto": []byte("syntax = \"proto3\";\npackage direct.v1;\nimport \"transitive/v1/transitive.proto\";\nmessage Direct { transitive.v1.Transitive t = 1; }\n")}},
+	)
+}
+
+// writeDeps adds `deps:` to the buf.yaml of the first module and writes its buf.lock (b4 digests, as v1 locks have them).
+func writeDeps(ctx context.Context, root string, c migCase) error {
+	if c.Deps == "" || c.Deps == "none" {
+		return nil
+	}
+	dir := root
+	if c.Layout != "single" {
+		dir = filepath.Join(root, "m1")
+	}
+	yamlPath := filepath.Join(dir, "buf.yaml")
+	data, err := os.ReadFile(yamlPath)
+	if err != nil {
+		return err
+	}
+	if err := os.WriteFile(yamlPath, append(data, []byte("deps:\n  - "+directName+"\n")...), 0o644); err != nil {
+		return err
+	}
+	omni, err := depsProvider()
+	if err != nil {
+		return err
+	}
+	var refs []bufparse.Ref
+	names := []string{directName}
+	if c.Deps == "transitive" {
+		names = append(names, transitiveName)
+	}
+	for _, n := range names {
+		ref, err := bufparse.ParseRef(n)
+		if err != nil {
+			return err
+		}
+		refs = append(refs, ref)
+	}
+	keys, err := omni.GetModuleKeysForModuleRefs(ctx, refs, bufmodule.DigestTypeB4)
+	if err != nil {
+		return err
+	}
+	version := bufconfig.FileVersionV1
+	if c.Version == "v1beta1" {
+		version = bufconfig.FileVersionV1Beta1
+	}
+	lock, err := bufconfig.NewBufLockFile(version, keys, nil)
+	if err != nil {
+		return err
+	}
+	bucket, err := storageos.NewProvider().NewReadWriteBucket(dir)
+	if err != nil {
+		return err
+	}
+	return bufconfig.PutBufLockFileForPrefix(ctx, bucket, ".", lock)
+}
+
+// pins reads name -> commit of the buf.lock in dir ("" if there is none).
+func pins(ctx context.Context, dir string) (map[string]string, error) {
+	bucket, err := storageos.NewProvider().NewReadWriteBucket(dir)
+	if err != nil {
+		return nil, err
+	}
+	lock, err := bufconfig.GetBufLockFileForPrefix(ctx, bucket, ".")
+	if err != nil {
+		if errors.Is(err, fs.ErrNotExist) {
+			return map[string]string{}, nil
+		}
+		return nil, err
+	}
+	out := map[string]string{}
+	for _, k := range lock.DepModuleKeys() {
+		out[k.FullName().String()] = k.CommitID().String()
+	}
+	return out, nil
+}
+
 func materialize(root string, c migCase) error {
 	if err := os.RemoveAll(root); err != nil {
 		return err
@@ -120,7 +212,7 @@ func materialize(root string, c migCase) error {
 
 // evaluate loads the workspace at root and returns, per module directory, the files built, the lint
 // annotations and the breaking configuration in effect.
-func evaluate(ctx context.Context, root string) (map[string]string, error) {
+func evaluate(ctx context.Context, root string, withDeps bool) (map[string]string, error) {
 	bucket, err := storageos.NewProvider(storageos.ProviderWithSymlinks()).NewReadWriteBucket(root, storageos.ReadWriteBucketWithSymlinksIfSupported())
 	if err != nil {
 		return nil, err
@@ -129,7 +221,17 @@ func evaluate(ctx context.Context, root string) (map[string]string, error) {
 	if err != nil {
 		return nil, err
 	}
-	ws, err := bufworkspace.NewWorkspaceProvider(bufx.Logger, bufmodule.NopGraphProvider, bufmodule.NopModuleDataProvider, bufmodule.NopCommitProvider, bufplugin.NopPluginKeyProvider).
+	var graphs bufmodule.GraphProvider = bufmodule.NopGraphProvider
+	var datas bufmodule.ModuleDataProvider = bufmodule.NopModuleDataProvider
+	var commits bufmodule.CommitProvider = bufmodule.NopCommitProvider
+	if withDeps {
+		omni, err := depsProvider()
+		if err != nil {
+			return nil, err
+		}
+		graphs, datas, commits = omni, omni, omni
+	}
+	ws, err := bufworkspace.NewWorkspaceProvider(bufx.Logger, graphs, datas, commits, bufplugin.NopPluginKeyProvider).
 		GetWorkspaceForBucket(ctx, bucket, targeting)
 	if err != nil {
 		return nil, err
@@ -201,8 +303,20 @@ func runMigrate(in []byte) (*reg.Result, error) {
 		if err := materialize(root, c); err != nil {
 			return nil, err
 		}
+		if err := writeDeps(ctx, root, c); err != nil {
+			return nil, err
+		}
+		withDeps := c.Deps != "" && c.Deps != "none"
+		lockDir := root
+		if c.Layout != "single" {
+			lockDir = filepath.Join(root, "m1")
+		}
+		pinsBefore, err := pins(ctx, lockDir)
+		if err != nil {
+			return nil, err
+		}
 		caseInfo := map[string]any{"workspace": c}
-		before, err := evaluate(ctx, root)
+		before, err := evaluate(ctx, root, withDeps)
 		if err != nil {
 			return nil, fmt.Errorf("case %v before migration: %w", c, err)
 		}
@@ -211,13 +325,39 @@ func runMigrate(in []byte) (*reg.Result, error) {
 			return nil, err
 		}
 		migrator := bufmigrate.NewMigrator(bufx.Logger, nopKeys{}, bufmodule.NopCommitProvider)
+		if withDeps {
+			omni, err := depsProvider()
+			if err != nil {
+				return nil, err
+			}
+			migrator = bufmigrate.NewMigrator(bufx.Logger, omni, omni)
+		}
 		res.Count(1, 1)
-		sig := fmt.Sprintf("layout=%s/version=%s/lint=%s/req=%v/resp=%v/ignore=%v/breaking=%s/second=%s", c.Layout, c.Version, c.LintUse, c.EmptyReq, c.EmptyResp, c.IgnoreFile, c.BreakingUse, c.Second)
+		sig := fmt.Sprintf("layout=%s/version=%s/lint=%s/req=%v/resp=%v/ignore=%v/breaking=%s/second=%s/deps=%s", c.Layout, c.Version, c.LintUse, c.EmptyReq, c.EmptyResp, c.IgnoreFile, c.BreakingUse, c.Second, c.Deps)
 		if err := bufmigrate.MigrateAll(ctx, migrator, bucket, nil); err != nil {
 			res.Violate("migrate-error/"+sig, caseInfo, "migration failed: %v", err)
 			continue
 		}
-		after, err := evaluate(ctx, root)
+		// the pins of the old buf.lock are the pins of the new one (at the workspace root), same commits
+		pinsAfter, err := pins(ctx, root)
+		if err != nil {
+			res.Violate("lock-unreadable/"+sig, caseInfo, "the migrated buf.lock cannot be read: %v", err)
+			continue
+		}
+		if inp.Corrupt && withDeps {
+			delete(pinsAfter, directName)
+		}
+		for name, commit := range pinsBefore {
+			if pinsAfter[name] != commit {
+				res.Violate(fmt.Sprintf("pin-lost/deps=%s/layout=%s/version=%s", c.Deps, c.Layout, c.Version), map[string]any{"workspace": c, "before": pinsBefore, "after": pinsAfter},
+					"the old buf.lock pins %s at %s, the migrated one has %q", name, commit, pinsAfter[name])
+			}
+		}
+		if len(pinsAfter) != len(c.Pins) {
+			res.Violate(fmt.Sprintf("pin-count/deps=%s/layout=%s/version=%s", c.Deps, c.Layout, c.Version), map[string]any{"workspace": c, "before": pinsBefore, "after": pinsAfter},
+				"the migrated buf.lock has %d pins, the specification expects %v", len(pinsAfter), c.Pins)
+		}
+		after, err := evaluate(ctx, root, withDeps)
 		if err != nil {
 			asig := "after-error/" + sig
 			if c.Version == "v1beta1" && strings.Contains(err.Error(), "\"FIELD_NO_DESCRIPTOR\" is not a known rule") {
